@@ -166,6 +166,15 @@ def gen_cell_key(tup, params, name, want_prev):
 
 # ----------------------------------------------------------------------------- __eq__
 def conj_list(e):
+    # `A if not A else B` and `B if A else A` are, by definition, `A and B`
+    if isinstance(e, ast.IfExp):
+        t = e.test
+        if isinstance(t, ast.UnaryOp) and isinstance(t.op, ast.Not) and src(t.operand) == src(e.body):
+            return conj_list(e.body) + conj_list(e.orelse)
+        if src(t) == src(e.orelse):
+            return conj_list(t) + conj_list(e.body)
+        if isinstance(e.orelse, ast.Constant) and e.orelse.value is False:
+            return conj_list(t) + conj_list(e.body)
     if isinstance(e, ast.BoolOp) and isinstance(e.op, ast.And):
         out = []
         for v in e.values:
@@ -243,14 +252,30 @@ def gen_values_eq(fn):
 
 
 # ----------------------------------------------------------------------------- __hash__
+def flatten_tuple(e):
+    """(a, b) + (c,)  ->  [a, b, c]   (tuple displays and their concatenations only)"""
+    if isinstance(e, ast.Tuple):
+        return list(e.elts)
+    if isinstance(e, ast.BinOp) and isinstance(e.op, ast.Add):
+        l, r = flatten_tuple(e.left), flatten_tuple(e.right)
+        if l is not None and r is not None:
+            return l + r
+    return None
+
+
 def hash_tuple(fn):
     e = None
-    for s in ast.walk(fn):
-        if isinstance(s, ast.Return):
-            e = s.value
-    if not (isinstance(e, ast.Call) and src(e.func) == "hash" and len(e.args) == 1 and isinstance(e.args[0], ast.Tuple)):
+    try:
+        e = reduce_function(fn)          # straight-line bodies: temporaries substituted
+    except NotReducible:
+        for s in ast.walk(fn):           # bodies with a loop (Cell.__hash__): the final return
+            if isinstance(s, ast.Return):
+                e = s.value
+    elts = flatten_tuple(e.args[0]) if (isinstance(e, ast.Call) and src(e.func) == "hash" and len(e.args) == 1
+                                        and not e.keywords) else None
+    if elts is None:
         bail(fn, "__hash__ does not return hash((...))")
-    return e.args[0].elts
+    return elts
 
 
 def gen_meta_hash(fn):
